@@ -4,6 +4,7 @@ EXTENDS Integers, Sequences, FiniteSets, TLC, Json
 CONSTANTS Names, Slots, MaxId, MaxOps, ArgT,  \* ArgT: argument texts for direct applications
           IntArgs,                               \* integer arguments of handle calls and Klong calls
           Theme                                  \* "all" | "py" (data and Python callables) | "kg" (Klong functions and handles)
+                                                 \* | "hd" (handle life cycle: define / handle / delete / call while deleted / redefine / call)
 A == INSTANCE PyAbs
 VARIABLES mon, hist, nid
 Init == mon = A!MonInit(Names, Slots, MaxId) /\ hist = <<>> /\ nid = 0
@@ -24,9 +25,9 @@ Next ==
   /\ Len(hist) < MaxOps
   /\ \/ \E n \in Names, v \in ArgT : Theme # "kg" /\ Add([op |-> "setdata", n |-> n, v |-> v]) /\ UNCHANGED nid
      \/ \E n \in Names, ar \in 0..3, kl \in BOOLEAN, rz \in BOOLEAN, perm \in BOOLEAN :       \* perm: parameters declared (y, x) / (z, x, y)
-          Theme # "kg" /\ nid < MaxId /\ nid' = nid + 1 /\ (perm => ar >= 2)
+          Theme \notin {"kg", "hd"} /\ nid < MaxId /\ nid' = nid + 1 /\ (perm => ar >= 2)
           /\ Add([op |-> "setpy", n |-> n, id |-> nid + 1, ar |-> ar, kl |-> kl, rz |-> rz, perm |-> perm])
-     \/ \E n \in Names, i \in 1..Len(Bodies) : Theme # "py" /\ Add([op |-> "defkg", n |-> n, ar |-> Bodies[i][1], body |-> Bodies[i][2]]) /\ UNCHANGED nid
+     \/ \E n \in Names, i \in 1..Len(Bodies) : Theme # "py" /\ (Theme = "hd" => Bodies[i][2] \in {"inc", "right"}) /\ Add([op |-> "defkg", n |-> n, ar |-> Bodies[i][1], body |-> Bodies[i][2]]) /\ UNCHANGED nid
      \/ \E n \in Names : Kind(n) # "none" /\ Add([op |-> "del", n |-> n]) /\ UNCHANGED nid
      \/ \E w \in Slots, n \in Names : Kind(n) = "kg" /\ Add([op |-> "getwrap", w |-> w, n |-> n]) /\ UNCHANGED nid
      \/ \E n \in Names, via \in {"python", "klong"} :
@@ -39,15 +40,18 @@ Next ==
           \/ ar = 3 /\ \E a \in Tuples(3, ArgT) : CallPy(n, "projm", a)
           \/ ar = 1 /\ ~mon.store[n].rz /\ \E a \in Tuples(3, {"1", "2", "3"}) : CallPy(n, "each", a)
           \/ ar = 2 /\ ~mon.store[n].rz /\ \E k \in {2, 3} : \E a \in Tuples(k, {"1", "2", "3"}) : CallPy(n, "over", a)
+     \* a handle may also be called while its name is deleted: the property prescribes nothing for that call (the monitor skips
+     \* it), but it must not change what the handle does after the name is defined again
      \/ \E w \in Slots, k \in 0..3 : \E a \in Tuples(k, IntArgs) :
-          /\ mon.wraps[w] # "" /\ Kind(mon.wraps[w]) = "kg" /\ UNCHANGED nid
+          /\ mon.wraps[w] # "" /\ Kind(mon.wraps[w]) \in {"kg", "none"} /\ UNCHANGED nid
+          /\ (Theme = "hd" => k \in {1, 2})
           /\ LET st == mon.store[mon.wraps[w]]
                  via == st.body = "viapy" /\ k = 1 IN
              Add([op |-> "callwrap", w |-> w, args |-> a,
                   res |-> IF k # st.ar THEN "rejected" ELSE IF via THEN (IF a[1] = 3 THEN "raised" ELSE A!Ret(A!Pf, mon.cnt[A!Pf] + 1))
                           ELSE A!Body(st.body, a),
                   log |-> IF via THEN <<[id |-> A!Pf, args |-> <<A!IntT(a[1])>>, klok |-> TRUE]>> ELSE <<>>])
-     \/ \E n \in Names : Kind(n) = "kg" /\ UNCHANGED nid /\
+     \/ \E n \in Names : Kind(n) = "kg" /\ Theme # "hd" /\ UNCHANGED nid /\
           \E a \in Tuples(mon.store[n].ar, IntArgs) :
              LET via == mon.store[n].body = "viapy" IN
              Add([op |-> "callkg", n |-> n, args |-> a,
